@@ -19,6 +19,16 @@ def dtStep (t : DT) (toks : List String) : DT × String :=
     | some k => (t, match t.getRow k with | some r => showDRow r | none => "none")
     | none => (t, "bad-op")
   | ["scan"] => (t, " ".intercalate (t.scan.map showDRow))
+  | ["sub", k, val] =>
+    -- `fast_subset` on the timestamp column (theorem C16_displaced_ts_range): the rows of the dense range
+    let k? : Option TsC := match k with
+      | "lt" => some .lt | "le" => some .le | "gt" => some .gt | "ge" => some .ge | "eqc" => some .eq | _ => none
+    match k?, val.toNat? with
+    | some k, some v =>
+      match tsRange t.displaced k v with
+      | some r => (t, " ".intercalate (((t.scan.drop r.1).take (r.2 - r.1)).map showDRow))
+      | none => (t, "none")
+    | _, _ => (t, "bad-op")
   | ["clear"] => (t.clear, "ok")
   | _ => (t, "bad-op")
 
